@@ -30,6 +30,9 @@ def plan(tier, seed):
              "nrand": 8000 if q else 40000, "nlive": 400 if q else 2500} for i in range(NSHARDS)]
 
 
+JUNK_PREFIXES = [b"10=123\x01", b"garbage!", b"\x0110=07", b"x" * 21, b"58=tail of a frame\x0110=200\x01", b"\x00" * 7, b"9=104\x0135=D\x01" + b"y" * 30, b"z" * 64, b"\x0110=000\x01" * 12]
+
+
 def corpus():
     S, T = "PEER", "ME"
     c = [
@@ -489,6 +492,16 @@ def run_shard(spec, acc):
             if acc.want(cid):
                 check_decode(acc, codec, buf, cid, f"{k}@{pos}", {"frame": ci})
                 acc.add("single_byte_mutations")
+                if idx % 4 == 0:
+                    # the same corrupted frame behind bytes that are still in the buffer (line noise, the orphaned tail of an earlier frame)
+                    junk = JUNK_PREFIXES[(idx // 4) % len(JUNK_PREFIXES)]
+                    check_decode(acc, codec, junk + buf, cid + ":junk", f"{k}@{pos}+junk{len(junk)}", {"frame": ci, "junk": len(junk)})
+                    acc.add("single_byte_mutations_behind_junk")
+                if buf.count(b"\x0110=") >= 2:
+                    # a second CheckSum-looking field inside the frame: every junk prefix, whatever the case index
+                    for junk in JUNK_PREFIXES:
+                        check_decode(acc, codec, junk + buf, cid + f":junk{len(junk)}", f"{k}@{pos}+junk{len(junk)}", {"frame": ci, "junk": len(junk)})
+                        acc.add("early_trailer_shapes_behind_junk")
     if shard == 1:
         for ci, fr in enumerate(cor):
             if acc.want(f"nosoh:{ci}"):
